@@ -216,6 +216,8 @@ def run_case(inp):
     if kind in ("exact", "chunks"):
         shape, n, k = tuple(inp["shape"]), int(inp["n"]), int(inp["k"])
         stack = _planted(inp["seed"], n, shape, k + 1, 0.3)
+        if inp.get("dtype"):            # raw-count stacks (integer dtypes) are legal input
+            stack = np.round((stack - stack.min()) / (stack.max() - stack.min()) * (200 if inp["dtype"] == "uint8" else 3000)).astype(inp["dtype"])
         m = inp["mask"]
         mask = None if m == "none" else ((r.uniform(size=shape) > 0.3).astype(np.float32) if m == "binary"
                                          else r.uniform(0.2, 1.0, size=shape).astype(np.float32))
@@ -375,6 +377,11 @@ def oracle(rng, thorough, deep=False, hints=None):
         cases.append(dict(kind="exact", shape=list(shape), n=n, k=k, mask=["none", "binary", "soft"][i % 3],
                           chunkings=chunkings, seed=int(rng.integers(0, 10 ** 6)),
                           scheduler=["synchronous", "threads"][i % 2]))
+    for i, (dt, m) in enumerate([("int16", "soft"), ("uint8", "soft"), ("float64", "soft"), ("int16", "binary"), ("int16", "positive")][:5 if big else 3]):
+        shape, n, k = (5, 4, 6), 24, 2
+        cases.append(dict(kind="exact", shape=list(shape), n=n, k=k, mask=m, dtype=dt,
+                          chunkings=[[int(rng.integers(1, n + 1))] + list(shape), [n] + list(shape)],
+                          seed=int(rng.integers(0, 10 ** 6)), scheduler="synchronous"))
     for i in range(6 if big else 3):
         g = [2, 3, 2, 4][i % 4]
         per = int(rng.integers(4, 9))
